@@ -21,3 +21,8 @@ func VerifHttpDefaults(h HttpProbe) HttpProbe {
 	h.validateAndSetHttpDefaults()
 	return h
 }
+
+// VerifCheckCompleted feeds one synthetic go-health state to this prober.
+func (p *Prober) VerifCheckCompleted(contiguousFailures int64, status string) {
+	p.healthCheckCompleted(&gohealth.State{ContiguousFailures: contiguousFailures, Status: status})
+}
